@@ -26,6 +26,7 @@ NEGS_C09 = {"NEG_C09_SecondStopOverwritesCode.cfg": ["C09_FirstCodeWins"],
             "NEG_C09_DeregWrongId.cfg": ["C09_AllRegisteredStop", "C09_EarlyStoppedDeregistered"],
             "NEG_C09_DeregWrongId_early.cfg": ["C09_EarlyStoppedDeregistered"],
             "NEG_C09_RunIgnoresNonZero.cfg": ["C09_RunErrOnNonZero"],
+            "NEG_C09_RegisterAfterReady.cfg": ["C09_AllRegisteredStop"],
             "NEG_C09_live_ExitSkipsLastArbiter.cfg": ["temporal"]}
 
 
